@@ -18,4 +18,4 @@ ASSUMPTIONS = ["the grammar oracle r_paren.unsafe() restates Lua 5.1-5.4/Luau op
 
 
 def run(ctx):
-    return [r_paren.rule_paren(ctx, "C05")]
+    return [r_paren.rule_paren(ctx, "C05"), r_paren.rule_condition_parens(ctx, "C05")]
